@@ -21,7 +21,9 @@ ASSUMPTIONS = [
 SCORERS = [None, {"cls": "CUSUM"}, {"cls": "L2Cost"}, {"cls": "ChangeScore", "cost": {"cls": "L2Cost"}},
            {"cls": "WeightedCUSUM", "weights": [0.0, 2.0, -1.0]}, {"cls": "ChangeScore", "cost": {"cls": "TrendPenalisedL2Cost", "weight": 0.5}},
            {"cls": "GaussianVarCost"}, "function", "table", {"cls": "SecondMomentChangeScore"},
-           {"cls": "WelchChangeScore"}]
+           {"cls": "WelchChangeScore"},
+           # a cost with a fixed (known) mean: the change score is then 0 up to rounding, whatever the data
+           {"cls": "L2Cost", "param": 0.5}, {"cls": "ChangeScore", "cost": {"cls": "L2Cost", "param": 0.5}}]
 
 
 @st.composite
@@ -138,8 +140,10 @@ def check(case):
                 d = float(OS.cusum_value(X, t - b, t, t + b).sum())
                 tol_d = 8 * (n + 1) ** 2 * ref.EPS * max(M, 1e-300) + 1e-9 * (abs(d) + K.score_magnitude({"cls": "CUSUM"}, X, 2 * b))
             else:
-                d = float(OS.change_score_value("L2Cost", None, X, t - b, t, t + b).sum())
-                tol_d = 4 * p * ref.error_bound(n, M) + 1e-9 * (abs(d) + K.score_magnitude({"cls": "L2Cost"}, X, 2 * b))
+                fixed = (params["change_score"].get("cost") or params["change_score"]).get("param")
+                d = float(OS.change_score_value("L2Cost", None if fixed is None else {"mean": fixed}, X, t - b, t, t + b).sum())
+                tol_d = 4 * p * ref.error_bound(n, M + abs(fixed or 0.0)) + \
+                    1e-9 * (abs(d) + K.score_magnitude({"cls": "L2Cost", "param": fixed}, X, 2 * b))
             if abs(s[t] - d) > tol_d:
                 raise Violation("score differs from the definitional two-sided window statistic computed from the rows",
                                 t=t, bandwidth=b, reported=float(s[t]), definition=d)
